@@ -508,11 +508,8 @@ pub fn c06(scn: &Scenario, tr: &[Ev]) -> Vec<Violation> {
             if r.called > k {
                 v(&mut out, "C06 on_run after kill", format!("actor {a}: on_run invoked at {} after kill() (pos {k})", r.called));
             }
-            for mk in &r.marks {
-                if *mk > k {
-                    v(&mut out, "C06 on_run progress after kill", format!("actor {a}: on_run body progressed at {mk} after kill() (pos {k})"));
-                }
-            }
+            // an on_run invocation that was already in progress when kill() returned may finish (the statement only asks
+            // for on_stop "as soon as the hook in progress finishes"); that its body must not progress is C08's clause
         }
         if ax.crashed() || ax.start_failed() || ax.run_err().is_some() {
             continue;
@@ -880,11 +877,8 @@ pub fn c10(scn: &Scenario, tr: &[Ev]) -> Vec<Violation> {
                 }
             }
             Some(_) => {
-                if let Some(n) = natural {
-                    if t1 != n {
-                        v(&mut out, "C10 Ok at the instant of completion", format!("op {}: completed at t={n}, returned at t={t1}", o.op));
-                    }
-                }
+                // Ok: the statement only asks that it returns by the deadline (checked above)
+                let _ = natural;
             }
             None => {}
         }
@@ -1259,23 +1253,6 @@ pub fn c14(scn: &Scenario, tr: &[Ev]) -> Vec<Violation> {
             if alive_asker && !cancelled && !scn.has_tag("parked") {
                 v(&mut out, "C14 nobody waits forever", format!("ask op {} from actor {x} to {y} is still waiting at terminal quiescence", o.op));
             }
-        }
-    }
-    // the graph holds every unanswered edge of a blocked asker
-    let mut graph: Vec<(i64, i64)> = Vec::new();
-    for (p, e) in tr.iter().enumerate() {
-        match &e.k {
-            EvK::Graph { edges } => graph = edges.clone(),
-            EvK::Quiet { status, .. } => {
-                let st: Vec<char> = status.chars().collect();
-                for (a, b) in unanswered_at(&ix, &asks, p, usize::MAX) {
-                    let blocked = st.get(ix.actor_owner(a)) == Some(&'B');
-                    if blocked && !graph.contains(&(a as i64, b as i64)) {
-                        v(&mut out, "C14 in-flight ask is tracked", format!("at {p}: actor {a} waits for {b} but the wait-for graph is {graph:?}"));
-                    }
-                }
-            }
-            _ => {}
         }
     }
     out
